@@ -120,6 +120,12 @@ func (a *IBCAdapter) ParsePacket(
 		return nil, err
 	}
 
+	// sdk.NewCoin panics on a negative amount or an invalid denom: this code runs
+	// before the ICS20 app validates the packet data.
+	if err := (sdk.Coin{Denom: denom, Amount: amount}).Validate(); err != nil {
+		return nil, errorsmod.Wrap(err, "invalid coin")
+	}
+
 	return &types.ParsedData{
 		Coin:    sdk.NewCoin(denom, amount),
 		Payload: *payload,
